@@ -369,9 +369,16 @@ void getOffsetAndCount(const Tag &tag, const DataArray &array, NDSize &offset, N
         position.pop_back();
         extent.pop_back();
     }
+    vector<double> end_position(position.size());
+    for (size_t i = 0; i < position.size(); ++i) {
+        end_position[i] = position[i] + extent[i];
+    }
     while (position.size() < dim_count) {
-        position.push_back(get<0>(max_extents[position.size()]));
-        extent.push_back(get<1>(max_extents[extent.size()]));
+        // max_extents holds the first and the last coordinate of the axis
+        const pair<double, double> &axis_ends = max_extents[position.size()];
+        position.push_back(get<0>(axis_ends));
+        end_position.push_back(get<1>(axis_ends));
+        extent.push_back(get<1>(axis_ends) - get<0>(axis_ends));
     }
 
     if (units.size() == 0) {
@@ -388,7 +395,7 @@ void getOffsetAndCount(const Tag &tag, const DataArray &array, NDSize &offset, N
     NDSize temp_count(position.size(), 1);
     for (size_t i = 0; i < position.size(); ++i) {
         vector<optional<pair<ndsize_t, ndsize_t>>> ranges = positionToIndex({position[i]},
-                                                                             {position[i] + extent[i]},
+                                                                             {end_position[i]},
                                                                              {units[i]},
                                                                              match,
                                                                              dimensions[i]);
@@ -456,15 +463,20 @@ void getOffsetAndCount(const MultiTag &tag, const DataArray &array, const vector
         } else {
             extent.resize(offset.size(), 0.0);
         }
-        // add pos/extents if missing
-        while (offset.size() < dimensions.size()) {
-            offset.push_back(get<0>(max_extents[offset.size()]));
-            extent.push_back(get<1>(max_extents[extent.size()]));
-        }
         // throw away info, if not needed
         while (offset.size() > dimensions.size()) {
             offset.pop_back();
             extent.pop_back();
+        }
+        vector<double> end(offset.size());
+        for (size_t i = 0; i < offset.size(); ++i) {
+            end[i] = offset[i] + extent[i];
+        }
+        // add pos/extents if missing, max_extents holds the first and the last coordinate of the axis
+        while (offset.size() < dimensions.size()) {
+            const pair<double, double> &axis_ends = max_extents[offset.size()];
+            offset.push_back(get<0>(axis_ends));
+            end.push_back(get<1>(axis_ends));
         }
 
         for (size_t dim_index = 0; dim_index < dimensions.size(); ++dim_index) {
@@ -473,7 +485,7 @@ void getOffsetAndCount(const MultiTag &tag, const DataArray &array, const vector
                 end_positions[dim_index] = vector<double>(indices.size());
             }
             start_positions[dim_index][idx] = offset[dim_index];
-            end_positions[dim_index][idx] = offset[dim_index] + extent[dim_index];
+            end_positions[dim_index][idx] = end[dim_index];
         }
     }
 
